@@ -364,6 +364,11 @@ func (p *_Loader) Import(pkgpath string) (*types.Package, error) {
 		}
 	}
 
+	// 没有任何源文件(文件名后缀不匹配或全部被 build-tag 过滤)
+	if len(pkg.Files) == 0 {
+		return nil, fmt.Errorf("package %q: no Wa/Wz source files", pkgpath)
+	}
+
 	pkg.Info = &types.Info{
 		Types:      make(map[ast.Expr]types.TypeAndValue),
 		Defs:       make(map[*ast.Ident]types.Object),
